@@ -5,6 +5,8 @@
 -/
 import Verif.Lemmas.Order
 import Verif.Lemmas.Dispatch
+import Verif.Model.RuleTable
+import Verif.Gen.RuleFields
 namespace Verif.Props.C12
 open Verif.Model.Engine
 variable {τ : Type}
@@ -64,5 +66,19 @@ theorem alone_is_pure (r : Rule τ) (h : r.NoRaise) (c : Comp r) (evs : List (Ev
   have := runAlone_pure r h evs c []
   simp only [Acc.empty] at *
   rw [this]; simp
+
+end Verif.Props.C12
+
+/-! ### Code side: no rule writes anything another rule can see -/
+namespace Verif.Props.C12
+open Verif.Model.RuleTable Verif.Gen.RuleFields
+
+/-- Writes whose root is not `self` (a delivered token, the context, a module global) are exactly
+the reviewed list of appends to caller-local lists: no rule mutates a token it was handed, the
+scan context's shared objects, or a global. -/
+theorem no_shared_writes : rows.flatMap (·.nonSelf) = Baseline.localWrites := by decide +kernel
+
+/-- Class-level mutable attributes are exactly the reviewed constant lookup tables. -/
+theorem no_module_state : rows.flatMap (·.classMut) = Baseline.classLevel := by decide +kernel
 
 end Verif.Props.C12
